@@ -63,9 +63,13 @@ class SimCheck:
         return res
 
     def replay(self, cfg, trace):
+        import gc
+
         sim = self.make_sim(cfg, trace)
         res = sim.run()
         res["config"] = cfg
+        del sim
+        gc.collect()  # sqlite objects must be finalised in the thread that made them
         return res
 
     def show_replay(self, cfg, trace, n):
